@@ -72,6 +72,7 @@ class inspect_fun(FnSpec):
         eng.assume(z3.ForAll([q], z3.Contains(r.term, z3.Unit(q)) == z3.Contains(s, z3.Unit(q))), heavy=True)
         i, j = z3.Int(sv.fresh_name("i")), z3.Int(sv.fresh_name("j"))
         eng.assume(z3.ForAll([i], z3.Implies(z3.And(0 <= i, i < z3.Length(r.term)), z3.Exists([j], z3.And(0 <= j, j < z3.Length(s), s[j] == r.term[i])))), heavy=True)
+        eng.assume(z3.ForAll([j], z3.Implies(z3.And(0 <= j, j < z3.Length(s)), z3.Exists([i], z3.And(0 <= i, i < z3.Length(r.term), r.term[i] == s[j])))), heavy=True)
         return r
 
     def make_args(self, eng):
@@ -90,20 +91,18 @@ class inspect_fun(FnSpec):
             "debug": False,
         }
 
-    def requires(self, ctx):
-        # every path loaded by the function has been resolved before the function is analysed (established by the
-        # pre-pass of _eval_new_ctx and by the registration of producers; see C09)
+    def _all_resolved(self, ctx):
         lp = TSeq(TStr).const("discovered_load_paths").term
         rr = ctx.args["gctx"].resolved_references
         i = z3.Int(sv.fresh_name("i"))
-        return [("loaded_paths_are_resolved", z3.ForAll([i], z3.Implies(z3.And(0 <= i, i < z3.Length(lp)), rr.has(lp[i]))))]
+        return z3.ForAll([i], z3.Implies(z3.And(0 <= i, i < z3.Length(lp)), rr.has(lp[i])))
 
     def ensures(self, ctx):
         ev = ctx.events
         brs = [e for e in ev if e.kind == "brs"]
         iv = [e for e in ev if e.kind == "IntroVisitor"]
         r = ctx.result
-        out = [("two_signature_compositions", len(brs) == 2), ("one_call_visitor", len(iv) == 1)]
+        out = [("two_signature_compositions", len(brs) == 2), ("one_call_visitor", len(iv) == 1), ("every_loaded_path_was_resolved", self._all_resolved(ctx))]
         if len(brs) != 2 or len(iv) != 1 or not isinstance(r, ObjVal):
             return out
         k1, k2 = brs[0].data["kw"], brs[1].data["kw"]
@@ -157,7 +156,8 @@ class inspect_fun(FnSpec):
         return out
 
     def signals(self, ctx):
-        return [("no_exception_on_the_composition_path", False)]
+        # a path loaded before anything stored it (in this evaluation or an earlier one) is refused with a DDS error
+        return [("only_coded_dds_errors", ctx.exc.cls is DS.DDSException), ("only_for_an_unresolved_loaded_path", z3.Not(self._all_resolved(ctx)))]
 
 
 def count_kind(ev, k):
